@@ -88,14 +88,16 @@ Theorem C08_dual_quaternion_product_class :
 Proof. vm_compute. reflexivity. Qed.
 Print Assumptions C08_dual_quaternion_product_class.
 
-(* (was _refuted before fix 11978d3)  scalar * twist and twist * scalar give the twist class, freshly computed, for SINGLE-valued
-   twists and either kind of scalar.  For multi-valued twists only twist * scalar does: C08_twist_rmul_multi_refuted. *)
-Theorem C08_scalar_times_twist_single :
-  forallb (fun X => forallb (fun s => outcome_beq (binop H 1 Mul s (Obj X)) (Value (RObj X) Computed)
-                                      && both_lengths (fun n => outcome_beq (binop H n Mul (Obj X) s) (Value (RObj X) Computed)))
-                            [KFloat; KInt]) [Twist2; Twist3] = true.
-Proof. vm_compute. reflexivity. Qed.
-Print Assumptions C08_scalar_times_twist_single.
+(* (was _refuted before fixes 11978d3 + d78118f)  scalar * twist and twist * scalar give the twist class, freshly computed,
+   for EVERY length n (not only the table's 1 and 3) and either kind of scalar *)
+Theorem C08_scalar_times_twist : forall (n : nat) (X : cls) (s : kind),
+  In X [Twist2; Twist3] -> In s [KFloat; KInt] ->
+  binop H n Mul s (Obj X) = Value (RObj X) Computed /\ binop H n Mul (Obj X) s = Value (RObj X) Computed.
+Proof.
+  intros n X s HX Hs. simpl in HX, Hs.
+  destruct HX as [<- | [<- | []]]; destruct Hs as [<- | [<- | []]]; split; vm_compute; reflexivity.
+Qed.
+Print Assumptions C08_scalar_times_twist.
 
 (* (raised AttributeError before fix 2cebac9)  SpatialInertia + SpatialInertia, single-valued *)
 Theorem C08_spatial_inertia_add :
